@@ -166,7 +166,8 @@ Inductive pcase :=
 | CDefault (v : value) (want : outcome)
 | CDefined (c : cid) (want : bool)
 | CBlocks (c : cid) (want_unpack want_pack : option (list bdesc))
-| CEq (a b : value) (want_eq want_ne : bool).       (* a == b and a != b of two constructed packets *)
+| CEq (a b : value) (want_eq want_ne : bool)
+| CRepack (c : cid) (raw : bytes) (off : Z) (sets : slots) (want : outcome).   (* unpack, assign fields, pack *)       (* a == b and a != b of two constructed packets *)
 Definition agrees (host : bool) (tbl : list (cid * pclass)) (ct : ctab) (x : pcase) : bool :=
   match x with
   | CUnpack c raw off want => outcome_eqb (run_unpack host ct c raw off) want
@@ -175,6 +176,18 @@ Definition agrees (host : bool) (tbl : list (cid * pclass)) (ct : ctab) (x : pca
   | CDefault v want => outcome_eqb (run_default ct v) want
   | CDefined c want => Bool.eqb (match ct_get ct c with Some _ => true | None => false end) want
   | CBlocks c u p => blocks_agree host ct c u p
+  | CRepack c raw off sets want =>
+      outcome_eqb
+        (match unpack_any FUEL host ct raw c off with
+         | POk (VPkt c' s) _ t =>
+             match map_opt (fun p => match complete FUEL ct (snd p) with Some x => Some (fst p, x) | None => None end) sets with
+             | Some sets' => pack_outcome host (delims_of t no_delims) ct (VPkt c' (fold_left (fun acc p => slot_set acc (fst p) (snd p)) sets' s))
+             | None => OOther
+             end
+         | POk _ _ _ => OOther
+         | PFail st => OErr true st
+         | PFuel => OOther
+         end) want
   | CEq a b weq wne =>
       match complete FUEL ct a, complete FUEL ct b with
       | Some x, Some y => Bool.eqb (pkt_eqb FUEL ct x y) weq && Bool.eqb (pkt_neb FUEL ct x y) wne
